@@ -67,7 +67,7 @@ def run_exact(ctx, rec, variant):
         cols["geom2"][k], cols["geom5"][k] = 9.0, 99.0
         for f, v in inherit_values(p["tag"]).items():
             cols[f][k] = v
-    motl = cm.Motl(motlutil.df_from_cols(cols))
+    motl = cm.Motl(motlutil.vary_index(motlutil.df_from_cols(cols), variant // 5))
     off = [v / U for v in case["off"]]
     arg = off if variant % 2 else np.array(off)
     res, err = core.call_guarded(motl.split_in_asymmetric_subunits, sym_arg(n, variant % 5), arg)
@@ -157,7 +157,7 @@ def observe(case):
         cols["geom2"][k], cols["geom5"][k] = 9.0, 99.0
         for f, v in inherit_values(p["tag"]).items():
             cols[f][k] = v
-    motl = cm.Motl(motlutil.df_from_cols(cols))
+    motl = cm.Motl(motlutil.vary_index(motlutil.df_from_cols(cols), case["id"]))
     off = np.array(case["off"], dtype=float)
     res, err = core.call_guarded(motl.split_in_asymmetric_subunits, sym_arg(n, case["spelling"]),
                                  list(case["off"]) if case["id"] % 2 else off)
